@@ -43,13 +43,32 @@ def _fl(x):
     return float(Fraction(x))
 
 
-def _arg(kind_value):
-    """case encoding of p_anc / mkrwt (None | scalar | list) -> python argument"""
+def _arg(kind_value, form=None):
+    """case encoding of p_anc / mkrwt (None | scalar | list) -> python argument.
+    form "int": integer-valued arguments are passed as int64 arrays / Python ints; "np": numpy.float64 scalars"""
     if kind_value is None:
         return None
     if isinstance(kind_value, list):
+        if form == "int" and all(Fraction(v).denominator == 1 for v in kind_value):
+            return numpy.array([int(Fraction(v)) for v in kind_value], dtype="int64")
         return numpy.array([_fl(v) for v in kind_value], dtype="float64")
+    if form == "int" and Fraction(kind_value).denominator == 1:
+        return int(Fraction(kind_value))
+    if form == "np":
+        return numpy.float64(_fl(kind_value))
     return _fl(kind_value)
+
+
+def _layout(a, how, junk=7):
+    """the same values in another memory layout: Fortran order, or a non-contiguous view into a wider buffer
+    whose gaps hold other numbers"""
+    if how == "F":
+        return numpy.asfortranarray(a)
+    if how == "strided":
+        big = numpy.full(a.shape[:-1] + (2 * a.shape[-1] + 1,), junk, dtype=a.dtype)
+        big[..., 1::2] = a
+        return big[..., 1::2]
+    return a
 
 
 def _finite(x):
@@ -77,27 +96,47 @@ def _scale(x):
     return float(best)
 
 
+def _scale0(x):
+    """largest absolute value in an encoded (nested) numeric value (0 for an all-zero value)"""
+    d = canon.dec(x)
+    best = Fraction(0)
+    stack = [d]
+    while stack:
+        v = stack.pop()
+        if isinstance(v, list):
+            stack.extend(v)
+        elif isinstance(v, Fraction):
+            best = max(best, abs(v))
+    return float(best)
+
+
 def _close(a, b, scale, rel=1e-9):
     """tolerant comparison of two encoded values; absolute slack proportional to the matrix scale"""
     return canon.close_enc(a, b, rel=rel, abs_=1e-11 * scale)
 
 
-def _summaries(c, symmetric):
-    """every summary of a coancestry object, both formats"""
+def _summaries(c, symmetric, extras=False):
+    """every summary of a coancestry object, both formats.  `extras`: the rarely used argument forms too
+    (negative / tuple axes, an explicit eigenvalue tolerance)"""
     out = {}
+    n = c.mat.shape[0]
     for fmt, key in (("coancestry", "co"), ("kinship", "kin")):
         s = {"mat": canon.enc(c.mat_asformat(fmt))}
         for name in ("max", "min", "mean"):
             f = getattr(c, name)
             s[name] = {"all": canon.enc(f(format=fmt)), "cols": canon.enc(f(format=fmt, axis=0)),
                        "rows": canon.enc(f(format=fmt, axis=1))}
+            if extras:
+                s[name]["x"] = {"rows": canon.enc(f(format=fmt, axis=-1)), "cols": canon.enc(f(format=fmt, axis=-2)),
+                                "all": canon.enc(f(format=fmt, axis=(0, 1))),
+                                "all_rev": canon.enc(f(fmt, (1, 0)))}
         s["max_inb"] = canon.enc(c.max_inbreeding(format=fmt))
         try:
-            s["inv"] = canon.enc(c.inverse(format=fmt))
+            s["inv"] = canon.enc(c.inverse(format=fmt)) if n <= INV_MAX_N else None
         except numpy.linalg.LinAlgError:
             s["inv"] = None
         try:
-            s["min_inb"] = canon.enc(c.min_inbreeding(format=fmt))
+            s["min_inb"] = canon.enc(c.min_inbreeding(format=fmt)) if n <= INV_MAX_N else None
         except numpy.linalg.LinAlgError:
             s["min_inb"] = None
         # a singular / ill-conditioned matrix may give inf or nan here without LinAlgError; the Spec only
@@ -108,8 +147,33 @@ def _summaries(c, symmetric):
                 s[key2 + "_nonfinite"] = True
         if symmetric and fmt == "coancestry":
             s["is_psd"] = bool(c.is_positive_semidefinite())
+            if extras and n <= 12:
+                s["is_psd_tol"] = [{"tol": canon.enc(t), "ans": bool(c.is_positive_semidefinite(_fl(t)))}
+                                   for t in PSD_TOLS]
         out[key] = s
     return out
+
+
+INV_MAX_N = 16                       # the exact Gauss-Jordan reference is only run up to this size (Drv: invMaxN)
+PSD_TOLS = (Fraction(-1), Fraction(1, 2), Fraction(1, 2 ** 20))
+
+
+def _extras_bad(s):
+    """the argument forms that must give what the plain forms give (two outputs of the implementation compared
+    with each other): names of the ones that differ"""
+    bad = []
+    for key in ("co", "kin"):
+        for name in ("max", "min", "mean"):
+            x = s[key][name].get("x")
+            if x is None:
+                continue
+            rel = 1e-12 if name == "mean" else 0.0
+            for form, plain in (("rows", "rows"), ("cols", "cols"), ("all", "all"), ("all_rev", "all")):
+                a, b = x[form], s[key][name][plain]
+                same = (a == b) if rel == 0.0 else canon.close_enc(a, b, rel=rel, abs_=0.0)
+                if not same:
+                    bad.append(f"{key}.{name}.axis_form_{form}")
+    return bad
 
 
 def _err_tag(e):
@@ -130,39 +194,55 @@ _MODEL_TAG = {"shape": "value", "range": "value"}
 class C13(Prop):
     PID = "C13"
     MODULE = "PybropsModel.Props.C13"
-    N_QUICK = 450
-    N_THOROUGH = 4000
+    N_QUICK = 300
+    N_THOROUGH = 2500
     RULE = ("genotype matrices (phased 0/1 alleles or unphased counts, ploidy 1 or 2, 1-9 taxa x 1-16 markers plus "
             "the sizes 49/98/103/107, pairwise distinct taxa forced, >= 1 polymorphic marker where the formula "
-            "needs it) x estimator (molecular, VanRaden, Yang, generalised weighted; class method or factory) x "
-            "reference frequencies (estimated / dyadic scalar / dyadic array incl. exact 0 and 1 where allowed) x "
-            "marker weights (none / scalar / non-negative array with zeros) x taxa permutation or unsorted subset; "
-            "many-marker cases (128, 129, 200, 300, 1000 markers, 2-4 inbred / highly homozygous or haploid lines "
-            "sharing >= 128 identical loci, all four estimators, estimated and supplied frequencies); "
-            "plus arbitrary (asymmetric, diagonally dominant or indefinite) square matrices for the summaries; "
+            "needs it; C / Fortran / strided memory layout; a fully heterozygous and a partly inbred taxon) x "
+            "estimator (molecular, VanRaden, Yang, generalised weighted; class method, factory or a user subclass) x "
+            "reference frequencies (estimated / dyadic scalar / dyadic array incl. exact 0 and 1 where allowed, "
+            "2^-17, 2^-27, 2^-40 and their complements; float64 arrays, int64 arrays, Python ints, numpy scalars) x "
+            "marker weights (none / scalar / non-negative array with zeros, 2^-40 ... 2^20) x taxa permutation or "
+            "unsorted subset; accessors with negative / slice / list / boolean-mask indices; "
+            "many-marker cases (128 ... 1000 markers, and 1025 / 1500 / 2049 / 2600 / 4097 / 4100 / 5000: not a "
+            "multiple of 1024 or 4096; 2-4 inbred / highly homozygous or haploid lines sharing >= 128 identical loci, "
+            "all four estimators, estimated and supplied frequencies); many-taxa cases (130, 257, 1030 taxa, column "
+            "totals past 127 / 255; judged against an independent numpy evaluation); "
+            "plus arbitrary (asymmetric, diagonally dominant or indefinite) square matrices for the summaries, with "
+            "entries 25000 + k/4, 1e9 +- 1/2, of size 2^-27, exact ties, eigenvalues +-2^-17, 49-130 taxa with the "
+            "unique extremes on the diagonal / in a corner, negative and tuple axes, explicit eigenvalue tolerances; "
             "grouped sources (`group_taxa()` before `from_gmat`: the sorted order and the four metadata arrays are "
             "read back from the source and must reappear on the result); "
-            "'summaries after in-place edit' sequences on ONE object (summaries, then element assignment through "
-            "`.mat`, diagonal increment, or an `apply_jitter` that fires, then all summaries again, Spec on every "
-            "round); and a stream of inputs that must be rejected.  Non-trivial = cmat case with >= 2 distinct taxa, >= 2 "
-            "markers and a polymorphic marker, or summary case with >= 2 taxa")
+            "histories on ONE object (summaries, then element assignment through `.mat`, diagonal increment, an "
+            "`apply_jitter` that fires, re-assignment of `.mat`, reorder / sort / group (generic and `_taxa` forms), "
+            "or overwriting an array a read-only method returned; then all summaries again, Spec on every round); "
+            "histories over SEVERAL objects computed from one genotype matrix (one of them re-ordered / sorted / "
+            "grouped / sub-selected / written to, or the genotype matrix re-ordered or edited in place: every other "
+            "object must be untouched, and a matrix computed afterwards must be that of the data then held); "
+            "and a stream of inputs that must be rejected.  Non-trivial = cmat case with >= 2 distinct taxa, >= 2 "
+            "markers and a polymorphic marker, summary case with >= 2 taxa, a history that changes something")
     TRUSTED = [
         "numpy.linalg.inv / eigvals entered through their contracts (A·A⁻¹ = I re-checked by the Spec oracle on "
-        "every well-conditioned case against an exact Gauss–Jordan inverse; is_positive_semidefinite True ⇒ exact "
-        "PSD test, clearly PD ⇒ True)",
-        "BLAS matrix products abstracted as exact sums (tolerance 1e-9 relative)",
+        "every well-conditioned case of at most 16 taxa against an exact Gauss–Jordan inverse; "
+        "is_positive_semidefinite(tol) True ⇒ exact test of A − tol·I ⪰ 0 up to rounding, clearly above ⇒ True; "
+        "at most 50 taxa)",
+        "BLAS matrix products abstracted as exact sums (tolerance 1e-9 relative to the largest entry)",
         "Float.sqrt of Lean = IEEE sqrt (only used by the op c13.yang_float)",
+        "numpy element-wise arithmetic and outer products (the independent evaluation of the many-taxa cases, "
+        "one marker at a time, integers where the formula allows it)",
     ]
     ASSUMPTIONS = [
         "allele frequencies / weights are dyadic rationals, genotypes small integers: float results within 1e-9 "
         "of the exact rational value",
-        "inverse-based summaries are compared only where n·max|A|·max|A⁻¹| <= 1e4 (well conditioned)",
+        "inverse-based summaries are compared only where n·max|A|·max|A⁻¹| <= 1e4 (well conditioned) and n <= 16",
         "taxa selections have distinct in-range indices (permutations and subsets)",
+        "sort / group histories use pairwise distinct taxon names, so the sorted order is determined by the keys",
         "apply_jitter is modelled with its oracle inputs recorded on the run: the uniform vectors (a RandomState "
         "clone seeded like the global stream) and the verdicts of is_positive_semidefinite (instance-level "
         "recorder); model matrix and flag are compared with the object (correspondence; the property text does "
         "not speak about jitter, so the Spec only demands that the summaries recomputed afterwards are those of "
         "the matrix now held)",
+        "file / data-frame round trips of coancestry matrices are C16's subject and are not repeated here",
     ]
 
     # ------------------------------------------------------------------ generation
@@ -220,7 +300,102 @@ class C13(Prop):
             {"kind": "summ", "cls": "mol", "mat": [[f"3/{2 ** 1000}", f"1/{2 ** 1000}"],
                                                    [f"1/{2 ** 1000}", f"5/{2 ** 1000}"]], "taxa": None},
         ]
-        return self._fixed_corpus() + [self._big_case()] + many + grouped + edits
+        return self._fixed_corpus() + [self._big_case()] + many + grouped + edits + self._round3_corpus()
+
+    def _round3_corpus(self):
+        """round 3: sizes past 1024 / 4096 markers and 127 / 1024 taxa, magnitudes near tolerances, rarely used
+        argument forms, histories over several objects computed from one genotype matrix"""
+        import random
+        rng = random.Random(1024)
+        out = []
+        # marker counts that are not a multiple of 1024 (a blocked accumulation must not lose the remainder)
+        for meth, mm, pl in (("gw", 1500, 2), ("gw", 1025, 1), ("vr", 1500, 2), ("yang", 1025, 2), ("mol", 2049, 2),
+                             ("mol", 1500, 1), ("gw", 4100, 2), ("mol", 5000, 2), ("vr", 4097, 1), ("mol", 4100, 1),
+                             ("yang", 4099, 2)):
+            out.append(self._bigm_case(rng, method=meth, m=mm, ploidy=pl, n=2))
+        # more taxa than 127 / 255 / 1024
+        for meth, nn in (("mol", 130), ("vr", 130), ("yang", 257), ("gw", 130), ("mol", 1030), ("gw", 1030),
+                         ("vr", 1030)):
+            out.append(self._bign_case(rng, n=nn, method=meth))
+        base = {"ploidy": 2, "phased": False, "n": 4, "m": 3,
+                "geno": [[0, 1, 2], [2, 2, 0], [1, 0, 1], [2, 1, 1]], "taxa": ["d", "b", "a", "c"],
+                "taxa_grp": [1, 0, 1, 0]}
+        half = {"p": "1/2", "w": None}
+        # VanRaden / Yang keep the label arrays of the source by reference: re-ordering one object must not
+        # re-label its siblings, the genotype matrix, or what is computed from it later
+        out.append({"kind": "alias", **base, "grouped": False,
+                    "objs": [{"method": "vr", "via": "class", **half}, {"method": "yang", "via": "class", **half}],
+                    "ops": [{"on": 0, "op": "reorder_taxa", "perm": [2, 0, 3, 1]}],
+                    "late": {"method": "mol", "via": "class", "p": None, "w": None}})
+        out.append({"kind": "alias", **base, "grouped": True,
+                    "objs": [{"method": "yang", "via": "factory", **half}, {"method": "vr", "via": "subclass", **half},
+                             {"method": "gw", "via": "class", "p": None, "w": [1, 2, 0]}],
+                    "ops": [{"on": 1, "op": "sort_taxa"}, {"on": 0, "op": "group", "axis": 0},
+                            {"on": 2, "op": "select_taxa", "perm": [3, 1]},
+                            {"on": "gmat", "op": "reorder_taxa", "perm": [1, 0, 3, 2]},
+                            {"on": 0, "op": "set", "i": 0, "j": 2, "v": "9/4"}],
+                    "late": {"method": "vr", "via": "class", **half}})
+        # the genotype data edited in place between two computations with sample-estimated frequencies
+        out.append({"kind": "alias", **base, "grouped": False,
+                    "objs": [{"method": "yang", "via": "class", "p": None, "w": None},
+                             {"method": "vr", "via": "factory", "p": None, "w": None}],
+                    "ops": [{"on": "gmat", "op": "gset", "i": 0, "j": 3}],
+                    "late": {"method": "yang", "via": "class", "p": None, "w": None}})
+        out.append({"kind": "alias", **base, "grouped": False,
+                    "objs": [{"method": "gw", "via": "class", "p": None, "w": None},
+                             {"method": "mol", "via": "factory", "p": None, "w": None}],
+                    "ops": [{"on": "gmat", "op": "gset", "i": 2, "j": 1}, {"on": 0, "op": "sort_taxa"}],
+                    "late": {"method": "vr", "via": "class", "p": None, "w": None}})
+        # reference frequencies / weights that a tolerance would round to 0 or 1
+        tiny = [f"1/{2 ** 27}", f"{2 ** 17 - 1}/{2 ** 17}", "1/2"]
+        tiny2 = [f"1/{2 ** 40}", "1/4", f"{2 ** 40 - 1}/{2 ** 40}"]
+        for meth in ("vr", "yang", "gw"):
+            out.append({"kind": "cmat", "method": meth, "via": "class", **base, "p": tiny,
+                        "w": [f"1/{2 ** 30}", str(2 ** 20), 1] if meth == "gw" else None, "sel": [3, 0, 2],
+                        "accforms": True})
+            out.append({"kind": "cmat", "method": meth, "via": "factory", **base, "p": tiny2,
+                        "w": [f"1/{2 ** 40}", 1, f"1/{2 ** 17}"] if meth == "gw" else None, "sel": [1, 3]})
+        for meth in ("vr", "yang"):
+            out.append({"kind": "cmat", "method": meth, "via": "class", **base, "p": f"1/{2 ** 40}", "w": None,
+                        "sel": [2, 1, 0, 3]})
+        out.append({"kind": "cmat", "method": "gw", "via": "factory", **base, "p": [0, 1, 1], "w": [2, 0, 3],
+                    "sel": [1, 2], "argform": "int", "layout": "F", "accforms": True})
+        out.append({"kind": "cmat", "method": "mol", "via": "subclass", "ploidy": 2, "phased": True, "n": 3, "m": 2,
+                    "geno": [[[0, 1], [1, 1], [0, 0]], [[1, 1], [0, 1], [0, 0]]], "taxa": ["a", "b", "c"],
+                    "taxa_grp": [2, 1, 2], "p": None, "w": None, "sel": [2, 0], "layout": "strided", "accforms": True})
+        out.append({"kind": "cmat", "method": "vr", "via": "class", **base, "p": "1/4", "w": None,
+                    "sel": None, "argform": "np", "layout": "strided"})
+        # summaries: magnitudes, sizes, layouts, argument forms
+        e = 2 ** 17
+        out += [
+            {"kind": "summ", "cls": "vr", "mat": [[1, f"{e - 1}/{e}"], [f"{e - 1}/{e}", 1]], "taxa": None, "extras": True},
+            {"kind": "summ", "cls": "vr", "mat": [[1, f"{e + 1}/{e}"], [f"{e + 1}/{e}", 1]], "taxa": None, "extras": True},
+            {"kind": "summ", "cls": "mol", "mat": [[25000, "100001/4"], ["100001/4", "50001/2"]], "taxa": None,
+             "extras": True, "layout": "F"},
+            {"kind": "summ", "cls": "gw", "mat": [["2000000001/2", 10 ** 9], ["1999999999/2", 10 ** 9]], "taxa": ["a", "b"],
+             "extras": True, "layout": "strided"},
+            {"kind": "summ", "cls": "yang", "mat": [[3, 3, 3], [3, 3, 3], [3, 3, 3]], "taxa": None, "extras": True},
+        ]
+        big = random.Random(103)
+        A = [[big.randint(-3, 3) for _ in range(103)] for _ in range(103)]
+        A = [[A[min(i, j)][max(i, j)] for j in range(103)] for i in range(103)]
+        A[40][40] = -5                                   # the unique minimum on the diagonal,
+        A[0][102] = A[102][0] = 7                        # the unique maximum in a corner
+        out.append({"kind": "summ", "cls": "mol", "mat": A, "taxa": None, "extras": True})
+        # one object: summaries, then re-binding / re-ordering / an overwritten returned array, summaries again
+        out += [
+            {"kind": "edit", "seed": 6, "src": "mat", "cls": "vr", "mat": [[2, 1, 0], [1, 3, 1], [0, 1, 4]],
+             "taxa": ["c", "a", "b"], "taxa_grp": [1, 0, 1],
+             "edits": [{"op": "assign", "mat": [[5, 1, 1], [1, 4, 0], [1, 0, 3]]},
+                       {"op": "reorder", "perm": [2, 0, 1], "how": "reorder_taxa"},
+                       {"op": "mutate_view", "what": "co"}, {"op": "group", "how": "group_taxa"},
+                       {"op": "mutate_view", "what": "select"}, {"op": "sort", "how": "sort", "axis": 0}]},
+            {"kind": "edit", "seed": 7, "src": "gmat", "method": "yang", "via": "class", **base, **half, "sel": None,
+             "edits": [{"op": "reorder", "perm": [3, 2, 1, 0], "how": "reorder", "axis": -2},
+                       {"op": "add_diag", "v": 1}, {"op": "mutate_view", "what": "kin"},
+                       {"op": "mutate_view", "what": "inv"}, {"op": "sort", "how": "sort_taxa"}]},
+        ]
+        return out
 
     @staticmethod
     def _big_case():
@@ -289,6 +464,10 @@ class C13(Prop):
             {"kind": "reject", "method": "mol", "via": "class", "ploidy": 2, "phased": True, "n": 2, "m": 0,
              "geno": [[[], []], [[], []]], "taxa": None, "taxa_grp": None, "p": None, "w": None, "sel": None},
         ]
+
+    TINY_P = [Fraction(1, 2 ** 27), Fraction(1, 2 ** 17), 1 - Fraction(1, 2 ** 27), 1 - Fraction(1, 2 ** 17),
+              Fraction(1, 2 ** 40), 1 - Fraction(1, 2 ** 40)]
+    TINY_W = [Fraction(1, 2 ** 30), Fraction(1, 2 ** 17), Fraction(2 ** 20), Fraction(0), Fraction(1), Fraction(1, 2 ** 40)]
 
     @staticmethod
     def _dyadic(rng, lo_open=False):
@@ -366,11 +545,30 @@ class C13(Prop):
                 wk = rng.choice([0, 1, 2, Fraction(1, 2), Fraction(3, 4), 5])
             else:
                 wk = [rng.choice([0, 0, 1, 2, 3, Fraction(1, 2), Fraction(5, 4)]) for _ in range(m)]
+        # magnitudes that a tolerance-style shortcut (isclose / clip / eps) would treat as 0 or 1: exact in
+        # binary64, far inside the open interval
+        if method != "mol" and rng.random() < 0.14:
+            pk = [rng.choice(self.TINY_P) if rng.random() < 0.6 else self._dyadic(rng, lo_open=True) for _ in range(m)]
+            if rng.random() < 0.25:
+                pk = rng.choice(self.TINY_P)
+        if method == "gw" and rng.random() < 0.14:
+            wk = [rng.choice(self.TINY_W) for _ in range(m)]
+            if rng.random() < 0.25:
+                wk = rng.choice(self.TINY_W[:3])
         geno, X = self._geno(rng, ploidy, phased, n, m, all_poly=(method == "yang" and pk is None))
         if pk is None and method in ("vr", "yang"):
             polys = [self._polymorphic(X, ploidy, k) for k in range(m)]
             ok = all(polys) if method == "yang" else any(polys)
             if not ok:                                    # cannot be repaired (e.g. one haploid taxon): supply p
+                pk = Fraction(1, 2)
+        # partially structured taxa: one fully heterozygous individual, one partly inbred (homozygous on the
+        # first half of the markers, as drawn on the rest)
+        if not phased and ploidy == 2 and n >= 3 and rng.random() < 0.12 and not (pk is None and method == "yang"):
+            geno[rng.randrange(n)] = [1] * m
+            i = rng.randrange(n)
+            geno[i] = [rng.choice([0, 2]) if k < m // 2 else geno[i][k] for k in range(m)]
+            X = geno
+            if pk is None and method == "vr" and not any(self._polymorphic(X, ploidy, k) for k in range(m)):
                 pk = Fraction(1, 2)
         taxa = None
         grp = None
@@ -389,18 +587,31 @@ class C13(Prop):
             sel = idx
         # a grouped source (`group_taxa()` sorts by group, then name, and fills the four metadata arrays)
         grouped = grp is not None and rng.random() < 0.45
-        return {"kind": "cmat", "method": method, "via": rng.choice(["class", "factory"]), "ploidy": ploidy,
-                "phased": phased, "n": n, "m": m, "geno": geno, "taxa": taxa, "taxa_grp": grp,
+        case = {"kind": "cmat", "method": method, "via": rng.choice(["class", "class", "factory", "factory", "subclass"]),
+                "ploidy": ploidy, "phased": phased, "n": n, "m": m, "geno": geno, "taxa": taxa, "taxa_grp": grp,
                 "p": canon.enc(pk), "w": canon.enc(wk), "sel": sel, "grouped": grouped}
+        # rarely used argument forms: memory layout of the genotype array, integer-typed / numpy-scalar
+        # arguments, the index forms of the accessors and the axis forms of the summaries
+        lay = rng.choice([None, None, None, "F", "strided"])
+        if lay is not None:
+            case["layout"] = lay
+        if rng.random() < 0.3:
+            case["accforms"] = True
+        r = rng.random()
+        if r < 0.25:
+            case["argform"] = "int"
+        elif r < 0.4:
+            case["argform"] = "np"
+        return case
 
-    def _bigm_case(self, rng, method=None, m=None, ploidy=None):
+    def _bigm_case(self, rng, method=None, m=None, ploidy=None, n=None):
         """many markers, few taxa, inbred / highly homozygous lines (and haploid matches): pairs of taxa share
         >= 128 jointly homozygous (or identical haploid) loci, so integer products X X' reach and pass 128, 256"""
         method = method or rng.choice(METHODS)
         ploidy = ploidy or rng.choice([1, 2, 2])
         phased = rng.random() < 0.5
-        n = rng.choice([2, 2, 3, 4])
-        m = m or rng.choice([128, 129, 200, 300, 1000])
+        m = m or rng.choice([128, 129, 200, 255, 256, 257, 300, 1000, 1025, 1500, 2049, 2600])
+        n = n or (rng.choice([2, 2, 3, 4]) if m <= 1000 else 2)
         founder = [rng.choice([0, ploidy]) if rng.random() < 0.7 else ploidy for _ in range(m)]
         X = []
         for i in range(n):
@@ -466,6 +677,33 @@ class C13(Prop):
             return {"op": "jitter", "tol": "3/4", "lo": "1/2", "hi": 1, "nattempt": 20}
         return {"op": "jitter", "tol": 100, "lo": "1/8", "hi": "1/4", "nattempt": 3}   # cannot succeed: restore
 
+    VIEWS = ("co", "kin", "inv", "max_rows", "min_cols_kin", "mean_rows", "select", "select_rev")
+
+    def _object_edit(self, rng, n, labelled):
+        """one operation of the public surface that re-binds or re-orders what the object holds, or overwrites
+        an array the object handed out"""
+        r = rng.random()
+        if r < 0.3:
+            perm = list(range(n))
+            while n >= 2 and perm == list(range(n)):
+                rng.shuffle(perm)
+            e = {"op": "reorder", "perm": perm, "how": rng.choice(["reorder_taxa", "reorder_taxa", "reorder"])}
+            if e["how"] == "reorder":
+                e["axis"] = rng.choice([-1, 0, 1, -2])
+            return e
+        if r < 0.5 and labelled:
+            e = {"op": rng.choice(["sort", "group"])}
+            e["how"] = e["op"] + rng.choice(["_taxa", "_taxa", ""])
+            if not e["how"].endswith("_taxa"):
+                e["axis"] = rng.choice([-1, 0, 1])
+            return e
+        if r < 0.7:
+            B = [[rng.randint(-2, 2) for _ in range(n + 1)] for _ in range(n)]
+            A = [[Fraction(sum(a * b for a, b in zip(B[i], B[j]))) + (Fraction(rng.randint(2, 7), 2) if i == j else 0)
+                  for j in range(n)] for i in range(n)]
+            return {"op": "assign", "mat": canon.enc(A)}
+        return {"op": "mutate_view", "what": rng.choice(self.VIEWS)}
+
     def _edit_case(self, rng):
         """summaries, an in-place edit of the SAME matrix object through the public surface, summaries again"""
         n = rng.choice([2, 2, 3, 3, 4, 5])
@@ -478,20 +716,26 @@ class C13(Prop):
                 A = [[A[min(i, j)][max(i, j)] for j in range(n)] for i in range(n)]
             for i in range(n):
                 A[i][i] = sum(abs(v) for j, v in enumerate(A[i]) if j != i) + Fraction(rng.randint(2, 8), 2)
+            names = [f"E{i}" for i in range(n)]
+            rng.shuffle(names)
+            labelled = rng.random() < 0.6
             case.update({"src": "mat", "cls": rng.choice(METHODS), "mat": canon.enc(A),
-                         "taxa": [f"E{i}" for i in range(n)] if rng.random() < 0.5 else None})
+                         "taxa": names if labelled else None,
+                         "taxa_grp": [rng.randint(0, 2) for _ in range(n)] if labelled and rng.random() < 0.7 else None})
             for _ in range(rng.choice([1, 1, 2, 3])):
                 r = rng.random()
-                if r < 0.45 and n >= 2:
+                if r < 0.3 and n >= 2:
                     i, j = rng.sample(range(n), 2)
                     edits.append({"op": "set", "i": i, "j": j, "v": canon.enc(Fraction(rng.randint(-3, 3), 4)),
                                   "mirror": sym})
-                elif r < 0.7:
+                elif r < 0.45:
                     i = rng.randrange(n)
                     edits.append({"op": "set", "i": i, "j": i,
                                   "v": canon.enc(A[i][i] + Fraction(rng.randint(1, 12), 2)), "mirror": False})
-                else:
+                elif r < 0.6:
                     edits.append({"op": "add_diag", "v": canon.enc(rng.choice([Fraction(1, 2), 1, 2, 5]))})
+                else:
+                    edits.append(self._object_edit(rng, n, labelled))
             if sym and rng.random() < 0.3:
                 edits.insert(rng.randint(0, len(edits)), self._jitter_edit(rng))
         else:
@@ -501,6 +745,7 @@ class C13(Prop):
             g["sel"] = None
             case.update({k: v for k, v in g.items() if k != "kind"})
             case["src"] = "gmat"
+            n = g["n"]
             # a jitter that fires on the singular matrices of the re-estimating estimators (tolerance and range
             # are public arguments); large enough to make the result well conditioned
             edits.append(self._jitter_edit(rng))
@@ -510,20 +755,108 @@ class C13(Prop):
                 i, j = rng.sample(range(g["n"]), 2)
                 edits.append({"op": "set", "i": i, "j": j, "v": canon.enc(Fraction(rng.randint(-1, 1), 4)),
                               "mirror": True})
+            for _ in range(rng.choice([0, 1, 1, 2])):
+                edits.insert(rng.randint(0, len(edits)), self._object_edit(rng, n, g["taxa"] is not None))
         case["edits"] = edits
         return case
+
+    def _alias_case(self, rng):
+        """two or three relationship matrices computed from ONE labelled genotype matrix; one of them (or the
+        genotype matrix) is then re-ordered / sorted / grouped / sub-selected / written to, and every other
+        object is inspected; finally one more matrix is computed from the same genotype matrix"""
+        ploidy = rng.choice([1, 2, 2])
+        phased = rng.random() < 0.5
+        n = rng.choice([3, 3, 4, 5, 6])
+        m = rng.choice([2, 3, 4, 5, 8, 12])
+        geno, X = self._geno(rng, ploidy, phased, n, m, all_poly=True)
+        X = [list(r) for r in X]
+        names = [f"A{rng.randint(0, 99):02d}_{i}" for i in range(n)]
+        rng.shuffle(names)
+        grp = [rng.randint(0, 3) for _ in range(n)] if rng.random() < 0.8 else None
+
+        def spec(method):
+            pk = wk = None
+            polys = [self._polymorphic(X, ploidy, k) for k in range(m)]
+            est_ok = all(polys) if method == "yang" else any(polys)
+            if method in ("vr", "yang") and not (est_ok and rng.random() < 0.4):
+                pk = self._dyadic(rng, lo_open=True) if rng.random() < 0.5 else \
+                    [self._dyadic(rng, lo_open=True) for _ in range(m)]
+            elif method == "gw":
+                pk = None if rng.random() < 0.5 else self._dyadic(rng)
+                wk = None if rng.random() < 0.5 else [rng.choice([0, 1, 2, Fraction(1, 2)]) for _ in range(m)]
+            return {"method": method, "via": rng.choice(["class", "factory", "subclass"]), "p": canon.enc(pk),
+                    "w": canon.enc(wk)}
+        # VanRaden / Yang hand the label arrays of the source on by reference, the other two copy them
+        k = rng.choice([2, 2, 3])
+        objs = [spec(rng.choice(["vr", "yang", "vr", "yang", "mol", "gw"])) for _ in range(k)]
+        ops = []
+        for _ in range(rng.choice([1, 2, 2, 3])):
+            on = rng.choice(list(range(k)) + ["gmat"]) if rng.random() < 0.8 else "gmat"
+            perm = list(range(n))
+            while perm == list(range(n)):
+                rng.shuffle(perm)
+            if on == "gmat":
+                if rng.random() < 0.5:
+                    ops.append({"on": "gmat", "op": "reorder_taxa", "perm": perm})
+                    X = [X[i] for i in perm]
+                else:
+                    # the genotype data edited in place: taxon i becomes the complement of taxon j
+                    i, j = rng.sample(range(n), 2)
+                    ops.append({"on": "gmat", "op": "gset", "i": i, "j": j})
+                    X[i] = [ploidy - v for v in X[j]]
+                continue
+            r = rng.random()
+            if r < 0.35:
+                op = {"on": on, "op": rng.choice(["reorder_taxa", "reorder"]), "perm": perm}
+                if op["op"] == "reorder":
+                    op["axis"] = rng.choice([-1, 0, 1])
+            elif r < 0.6:
+                op = {"on": on, "op": rng.choice(["sort_taxa", "sort", "group_taxa", "group"])}
+                if not op["op"].endswith("_taxa"):
+                    op["axis"] = rng.choice([-1, 0, 1])
+            elif r < 0.8:
+                sub = perm[:rng.randint(1, n)]
+                op = {"on": on, "op": "select_taxa", "perm": sub}
+            else:
+                i, j = rng.sample(range(n), 2)
+                op = {"on": on, "op": "set", "i": i, "j": j, "v": canon.enc(Fraction(rng.randint(-8, 8), 4))}
+            ops.append(op)
+        return {"kind": "alias", "ploidy": ploidy, "phased": phased, "n": n, "m": m, "geno": geno,
+                "taxa": names, "taxa_grp": grp, "grouped": grp is not None and rng.random() < 0.4,
+                "objs": objs, "ops": ops, "late": spec(rng.choice(METHODS)) if rng.random() < 0.85 else None}
+
+    def _bign_case(self, rng, n=None, method=None):
+        """more taxa than a narrow accumulator / a block size holds (127, 255, 1024); judged against an
+        independent evaluation in numpy"""
+        method = method or rng.choice(METHODS)
+        n = n or rng.choice([130, 130, 257, 1030])
+        m = rng.choice([2, 3, 5])
+        ploidy = rng.choice([1, 2, 2])
+        pk = wk = None
+        if method != "mol":
+            r = rng.random()
+            pk = None if r < 0.5 else (self._dyadic(rng, lo_open=True) if r < 0.7 else
+                                       [self._dyadic(rng, lo_open=True) for _ in range(m)])
+        if method == "gw" and rng.random() < 0.6:
+            wk = [rng.choice([1, 2, Fraction(1, 2)]) for _ in range(m)]
+        sel = rng.sample(range(n), 5)
+        # a common allele: the column totals pass 127 and 255
+        return {"kind": "bign", "method": method, "via": rng.choice(["class", "factory"]), "ploidy": ploidy,
+                "phased": rng.random() < 0.5, "n": n, "m": m, "seed": rng.randint(0, 2 ** 31 - 1),
+                "freq": [canon.enc(rng.choice([Fraction(7, 8), Fraction(15, 16), Fraction(1, 2)])) for _ in range(m)],
+                "p": canon.enc(pk), "w": canon.enc(wk), "sel": sel}
 
     def _summ_case(self, rng):
         n = rng.choice([1, 2, 2, 3, 3, 4, 5, 6])
         style = rng.random()
         val = lambda: Fraction(rng.randint(-8, 8), rng.choice([1, 1, 2, 4]))
         A = [[val() for _ in range(n)] for _ in range(n)]
-        if style < 0.45:                                   # asymmetric, strictly diagonally dominant
+        if style < 0.40:                                   # asymmetric, strictly diagonally dominant
             for i in range(n):
                 A[i][i] = sum(abs(v) for j, v in enumerate(A[i]) if j != i) + Fraction(rng.randint(1, 6), 2)
                 if rng.random() < 0.2:
                     A[i][i] = -A[i][i]
-        elif style < 0.8:                                  # symmetric: B B' + ridge (PD), or indefinite
+        elif style < 0.70:                                 # symmetric: B B' + ridge (PD), or indefinite
             B = [[rng.randint(-2, 2) for _ in range(n + 1)] for _ in range(n)]
             A = [[Fraction(sum(a * b for a, b in zip(B[i], B[j]))) for j in range(n)] for i in range(n)]
             if rng.random() < 0.6:
@@ -532,15 +865,69 @@ class C13(Prop):
             elif rng.random() < 0.5:
                 A[rng.randrange(n)][rng.randrange(n)] -= 3
                 A = [[(A[i][j] + A[j][i]) / 2 for j in range(n)] for i in range(n)]
-        else:                                              # symmetric random (often indefinite)
+        elif style < 0.80:                                 # symmetric random (often indefinite)
             A = [[A[min(i, j)][max(i, j)] for j in range(n)] for i in range(n)]
+        elif style < 0.90:
+            A = self._summ_magnitude(rng, n)
+        else:
+            # many taxa (1/n² and 1/n are inexact for 49, 103, 107; 130 > 127): small integers, symmetric,
+            # ties for the extreme values, a constant row
+            n = rng.choice([49, 103, 107, 130])
+            A = [[Fraction(rng.randint(-3, 3)) for _ in range(n)] for _ in range(n)]
+            A = [[A[min(i, j)][max(i, j)] for j in range(n)] for i in range(n)]
+            k = rng.randrange(n)
+            for j in range(n):
+                A[k][j] = A[j][k] = Fraction(2)
+            # the unique extreme values sit at structurally special places: on the diagonal, in a corner, in the
+            # last row / column
+            spots = [(i, i) for i in rng.sample(range(n), 2)] + [(0, n - 1), (n - 1, n - 2)]
+            rng.shuffle(spots)
+            (a, b), (c2, d) = spots[0], spots[1]
+            A[a][b] = A[b][a] = Fraction(-5)
+            A[c2][d] = A[d][c2] = Fraction(7)
         taxa = [f"S{i}" for i in range(n)] if rng.random() < 0.5 else None
-        return {"kind": "summ", "cls": rng.choice(METHODS), "mat": canon.enc(A), "taxa": taxa}
+        case = {"kind": "summ", "cls": rng.choice(METHODS), "mat": canon.enc(A), "taxa": taxa}
+        lay = rng.choice([None, None, "F", "strided"])
+        if lay is not None:
+            case["layout"] = lay
+        if rng.random() < 0.6:
+            case["extras"] = True
+        return case
+
+    @staticmethod
+    def _summ_magnitude(rng, n):
+        """entries whose size interacts with tolerances: a large common offset with small differences,
+        1e9 +- 0.5, a matrix of size 2^-27, exact ties, eigenvalues of relative size 2^-17 (both signs)"""
+        kind = rng.choice(["offset", "1e9", "tiny", "ties", "eig_pos", "eig_neg"])
+        sym = rng.random() < 0.7
+        if kind == "offset":
+            A = [[25000 + Fraction(rng.randint(-8, 8), 4) for _ in range(n)] for _ in range(n)]
+        elif kind == "1e9":
+            A = [[10 ** 9 + Fraction(rng.choice([-1, 0, 1]), 2) for _ in range(n)] for _ in range(n)]
+        elif kind == "tiny":
+            A = [[Fraction(rng.randint(-8, 8), 2 ** 27) for _ in range(n)] for _ in range(n)]
+            for i in range(n):
+                A[i][i] = sum(abs(v) for j, v in enumerate(A[i]) if j != i) + Fraction(rng.randint(1, 6), 2 ** 28)
+        elif kind == "ties":
+            v = Fraction(rng.randint(-4, 4), 2)
+            A = [[v for _ in range(n)] for _ in range(n)]
+            if n >= 2:
+                A[rng.randrange(n)][rng.randrange(n)] += Fraction(rng.choice([-1, 0, 1]), 2 ** 20)
+        else:
+            # J·a + diag: [[1, 1∓e], [1∓e, 1]] has the eigenvalue ±e, e = 2^-17 (clearly positive / clearly negative)
+            e = Fraction(1, 2 ** 17) * (1 if kind == "eig_pos" else -1)
+            A = [[Fraction(1) if i == j else 1 - e for j in range(n)] for i in range(n)]
+            return A
+        if sym:
+            A = [[A[min(i, j)][max(i, j)] for j in range(n)] for i in range(n)]
+        return A
 
     def _reject_case(self, rng):
         c = self._cmat_case(rng)
         c["kind"] = "reject"
         c["sel"] = None
+        for key in ("layout", "argform", "accforms"):
+            c.pop(key, None)
         m, n = c["m"], c["n"]
         why = rng.choice(["ploidy", "p_range_scalar", "p_range_array", "p_shape", "nonfinite", "w_range", "w_shape"])
         if why == "ploidy":
@@ -586,14 +973,18 @@ class C13(Prop):
         out = []
         for _ in range(n):
             r = rng.random()
-            if r < 0.56:
+            if r < 0.47:
                 out.append(self._cmat_case(rng))
-            elif r < 0.64:
+            elif r < 0.54:
                 out.append(self._bigm_case(rng))
-            elif r < 0.80:
+            elif r < 0.68:
                 out.append(self._summ_case(rng))
-            elif r < 0.92:
+            elif r < 0.81:
                 out.append(self._edit_case(rng))
+            elif r < 0.91:
+                out.append(self._alias_case(rng))
+            elif r < 0.925:
+                out.append(self._bign_case(rng))
             else:
                 out.append(self._reject_case(rng))
         return out
@@ -602,20 +993,22 @@ class C13(Prop):
     def _gmat(self, M, case):
         taxa = None if case["taxa"] is None else numpy.array(case["taxa"], dtype=object)
         grp = None if case.get("taxa_grp") is None else numpy.array(case["taxa_grp"], dtype="int64")
+        lay = case.get("layout")
         if case["phased"]:
             mat = numpy.array(case["geno"], dtype="int8").reshape(case["ploidy"], case["n"], case["m"])
-            return M["PG"](mat=mat, taxa=taxa, taxa_grp=grp)
+            return M["PG"](mat=_layout(mat, lay), taxa=taxa, taxa_grp=grp)
         mat = numpy.array(case["geno"], dtype="int8").reshape(case["n"], case["m"])
-        return M["UG"](mat=mat, taxa=taxa, taxa_grp=grp, ploidy=case["ploidy"])
+        return M["UG"](mat=_layout(mat, lay), taxa=taxa, taxa_grp=grp, ploidy=case["ploidy"])
 
     @staticmethod
     def _kwargs(case):
         kw = {}
+        form = case.get("argform")
         if case["method"] in ("vr", "yang"):
-            kw["p_anc"] = _arg(case["p"])
+            kw["p_anc"] = _arg(case["p"], form)
         elif case["method"] == "gw":
-            kw["mkrwt"] = _arg(case["w"])
-            kw["afreq"] = _arg(case["p"])
+            kw["mkrwt"] = _arg(case["w"], form)
+            kw["afreq"] = _arg(case["p"], form)
         return kw
 
     def _source(self, M, case):
@@ -638,28 +1031,95 @@ class C13(Prop):
             return "partial"
         return {k: [int(x) for x in v] for k, v in parts.items()}
 
-    def _build(self, M, case, gm):
-        kw = self._kwargs(case)
+    _SUB = {}
+
+    def _build(self, M, case, gm, kw=None):
+        kw = self._kwargs(case) if kw is None else kw
         if case["via"] == "factory":
             return M["fcty"][case["method"]]().from_gmat(gm, **kw)
-        return M["cls"][case["method"]].from_gmat(gm, **kw)
+        cls = M["cls"][case["method"]]
+        if case["via"] == "subclass":                    # a user subclass inherits the class method
+            if cls not in self._SUB:
+                self._SUB[cls] = type("User" + cls.__name__, (cls,), {})
+            cls = self._SUB[cls]
+        return cls.from_gmat(gm, **kw)
 
     @staticmethod
     def _labels(c):
         return {"taxa": None if c.taxa is None else [str(t) for t in c.taxa],
                 "taxa_grp": None if c.taxa_grp is None else [int(t) for t in c.taxa_grp]}
 
+    @staticmethod
+    def _codes(*name_lists):
+        """order-preserving, injective integer codes of the taxon names of one case (the model sorts codes)"""
+        names = sorted({str(t) for l in name_lists if l is not None for t in l})
+        return {t: i for i, t in enumerate(names)}
+
+    def _snap_obj(self, c, codes):
+        """the labelled object as the model of DenseSquareTaxaMatrix sees it"""
+        meta = self._meta(c)
+        return {"mat": canon.enc(c.mat),
+                "taxa": None if c.taxa is None else [codes.get(str(t), -1 - i) for i, t in enumerate(c.taxa)],
+                "taxa_grp": None if c.taxa_grp is None else [int(t) for t in c.taxa_grp],
+                "meta": None if meta == "partial" else meta, "meta_partial": meta == "partial",
+                "names": None if c.taxa is None else [str(t) for t in c.taxa]}
+
+    @staticmethod
+    def _acc_forms(c, n):
+        """the accessors with the index forms numpy accepts besides two non-negative integers; every returned
+        element is reported with the (row, column) it must come from"""
+        pos = numpy.arange(n * n).reshape(n, n)
+        forms = [(-1, -1), (-n, n - 1), (n - 1,), (slice(None), 0), (slice(None, None, -1), -1),
+                 ([0, n - 1], [n - 1, 0])]
+        if n >= 2:
+            mask = numpy.zeros(n, dtype=bool)
+            mask[[0, n - 1]] = True
+            forms.append((mask,))
+            forms.append((slice(1, None), slice(None, -1)))
+        out = []
+        for args in forms:
+            where = numpy.asarray(pos[args]).ravel()
+            co = numpy.asarray(c.coancestry(*args)).ravel()
+            kin = numpy.asarray(c.kinship(*args)).ravel()
+            if len(co) != len(where) or len(kin) != len(where):
+                out.append([0, 0, "nan", "nan"])
+                continue
+            for w, a, b in zip(where, co, kin):
+                out.append([int(w) // n, int(w) % n, canon.enc(float(a)), canon.enc(float(b))])
+        return out
+
+    def _obs_cmat(self, M, case, c, accforms=False):
+        """what the Spec of one freshly built relationship matrix looks at"""
+        isinst = isinstance(c, M["cls"][case["method"]]) and isinstance(c, M["base"])
+        out = {"mat": canon.enc(c.mat), "class_ok": bool(isinst), **self._labels(c), "meta": self._meta(c)}
+        n = case["n"]
+        acc = []
+        for i in range(n):
+            for j in range(n):
+                acc.append([i, j, canon.enc(c.coancestry(i, j)), canon.enc(c.kinship(i, j))])
+        if accforms and n >= 1:
+            acc += self._acc_forms(c, n)
+        out["acc"] = acc
+        out["co"] = canon.enc(c.mat_asformat("coancestry"))
+        out["kin"] = canon.enc(c.mat_asformat("kinship"))
+        return out
+
     def run_impl(self, case):
         M = _mods()
         k = case["kind"]
         if k == "summ":
             mat = numpy.array([[_fl(v) for v in r] for r in case["mat"]], dtype="float64")
+            mat = _layout(mat, case.get("layout"), junk=-12345.0)
             taxa = None if case["taxa"] is None else numpy.array(case["taxa"], dtype=object)
             c = M["cls"][case["cls"]](mat=mat, taxa=taxa)
             sym = bool((mat == mat.T).all())
-            return {"mat": canon.enc(c.mat), "symmetric": sym, **_summaries(c, sym)}
+            return {"mat": canon.enc(c.mat), "symmetric": sym, **_summaries(c, sym, extras=bool(case.get("extras")))}
         if k == "edit":
             return self._run_edit(M, case)
+        if k == "alias":
+            return self._run_alias(M, case)
+        if k == "bign":
+            return self._run_bign(M, case)
         if k == "reject":
             try:
                 gm = self._gmat(M, case)
@@ -670,55 +1130,107 @@ class C13(Prop):
                 return {"err": "nonfinite"}
             return {"err": None, "mat": canon.enc(c.mat)}
         gm, eff = self._source(M, case)
-        c = self._build(M, case, gm)
-        isinst = isinstance(c, M["cls"][case["method"]]) and isinstance(c, M["base"])
-        out = {"mat": canon.enc(c.mat), "class_ok": bool(isinst), **self._labels(c), "eff": eff,
-               "meta": self._meta(c)}
-        n = case["n"]
-        acc = []
-        for i in range(n):
-            for j in range(n):
-                acc.append([i, j, canon.enc(c.coancestry(i, j)), canon.enc(c.kinship(i, j))])
-        out["acc"] = acc
-        out["co"] = canon.enc(c.mat_asformat("coancestry"))
-        out["kin"] = canon.enc(c.mat_asformat("kinship"))
+        src_before = (canon.enc(gm.mat), None if gm.taxa is None else [str(t) for t in gm.taxa],
+                      None if gm.taxa_grp is None else [int(t) for t in gm.taxa_grp])
+        kw = self._kwargs(case)                      # the SAME argument objects serve every call of this case
+        c = self._build(M, case, gm, kw)
+        out = self._obs_cmat(M, case, c, accforms=bool(case.get("accforms")))
+        out["eff"] = eff
         if _finite(out["mat"]):
-            out["summ"] = _summaries(c, True)
+            out["summ"] = _summaries(c, True, extras=bool(case.get("accforms")))
         if case.get("sel") is not None:
             idx = [int(i) for i in case["sel"]]
-            a = self._build(M, case, gm.select_taxa(idx))
+            a = self._build(M, case, gm.select_taxa(idx), kw)
             b = c.select_taxa(idx)
             out["sel_a"] = {"mat": canon.enc(a.mat), **self._labels(a)}
             out["sel_b"] = {"mat": canon.enc(b.mat), **self._labels(b)}
+        # the source must come out of all this untouched, and the object still holds what was observed
+        src_after = (canon.enc(gm.mat), None if gm.taxa is None else [str(t) for t in gm.taxa],
+                     None if gm.taxa_grp is None else [int(t) for t in gm.taxa_grp])
+        out["source_intact"] = bool(src_before == src_after)
+        fresh = self._kwargs(case)
+        out["args_intact"] = bool(all(type(kw[k]) is type(fresh[k]) and numpy.array_equal(kw[k], fresh[k])
+                                      for k in fresh if fresh[k] is not None))
+        out["object_intact"] = bool(canon.enc(c.mat) == out["mat"] and self._labels(c)["taxa"] == out["taxa"])
         return out
 
+    # ---- histories on ONE object
     def _run_edit(self, M, case):
         if case["src"] == "mat":
             mat = numpy.array([[_fl(v) for v in r] for r in case["mat"]], dtype="float64")
             taxa = None if case["taxa"] is None else numpy.array(case["taxa"], dtype=object)
-            c = M["cls"][case["cls"]](mat=mat, taxa=taxa)
+            grp = None if case.get("taxa_grp") is None else numpy.array(case["taxa_grp"], dtype="int64")
+            c = M["cls"][case["cls"]](mat=mat, taxa=taxa, taxa_grp=grp)
         else:
             c = self._build(M, case, self._source(M, case)[0])
         n = c.mat.shape[0]
+        codes = self._codes(case.get("taxa"))
 
         def snap():
             m = c.mat.copy()
             sym = bool((m == m.T).all())
-            return {"mat": canon.enc(m), "symmetric": sym, **_summaries(c, sym)}
+            return {"mat": canon.enc(m), "symmetric": sym, **_summaries(c, sym), "obj": self._snap_obj(c, codes)}
 
         steps = [snap()]                     # first round of summaries (anything cached is cached now)
         ident = id(c.mat)
+        same_array = True
         info = []
         for k, e in enumerate(case["edits"]):
-            if e["op"] == "set":
+            op = e["op"]
+            if op == "set":
                 c.mat[e["i"], e["j"]] = _fl(e["v"])
                 if e.get("mirror"):
                     c.mat[e["j"], e["i"]] = _fl(e["v"])
                 info.append(None)
-            elif e["op"] == "add_diag":
+            elif op == "add_diag":
                 c.mat[numpy.diag_indices(n)] += _fl(e["v"])
                 info.append(None)
-            elif e["op"] == "jitter":
+            elif op == "assign":             # attribute re-assignment through the public setter
+                c.mat = numpy.array([[_fl(v) for v in r] for r in e["mat"]], dtype="float64")
+                info.append(None)
+            elif op == "reorder":
+                perm = numpy.array(e["perm"], dtype="int64")
+                if e.get("how") == "reorder":
+                    c.reorder(perm, axis=e.get("axis", -1))
+                else:
+                    c.reorder_taxa(perm)
+                info.append(None)
+            elif op == "sort":
+                c.sort(axis=e.get("axis", -1)) if e.get("how") == "sort" else c.sort_taxa()
+                info.append(None)
+            elif op == "group":
+                c.group(axis=e.get("axis", -1)) if e.get("how") == "group" else c.group_taxa()
+                info.append(None)
+            elif op == "mutate_view":
+                # the arrays handed out by the read-only methods belong to the caller: overwrite one
+                what = e["what"]
+                if what == "co":
+                    r = c.mat_asformat("coancestry")
+                elif what == "kin":
+                    r = c.mat_asformat("kinship")
+                elif what == "inv":
+                    try:
+                        r = c.inverse()
+                    except numpy.linalg.LinAlgError:
+                        r = numpy.zeros((1,))
+                elif what == "max_rows":
+                    r = c.max(axis=1)
+                elif what == "min_cols_kin":
+                    r = c.min(format="kinship", axis=0)
+                elif what == "mean_rows":
+                    r = c.mean(axis=1)
+                else:                        # "select" / "select_rev": the object returned by select_taxa
+                    o2 = c.select_taxa(list(range(n))[::-1] if what == "select_rev" else list(range(n)))
+                    r = o2.mat
+                    if o2.taxa is not None:
+                        o2.taxa[:] = "overwritten"
+                    if o2.taxa_grp is not None:
+                        o2.taxa_grp[:] = -77
+                r = numpy.asarray(r)
+                if r.ndim >= 1 and r.flags.writeable:
+                    r[...] = 12345.0
+                info.append(None)
+            elif op == "jitter":
                 seed = (case["seed"] + k) % (2 ** 32)
                 natt = int(e.get("nattempt", 100))
                 # oracle inputs of the model: the uniform vectors `apply_jitter` will draw from the global
@@ -742,20 +1254,208 @@ class C13(Prop):
                 info.append({"ok": ok, "answers": list(answers), "draws": canon.enc(draws[:max(0, len(answers) - 1)])
                              if len(answers) - 1 <= len(draws) else None})
             else:
-                raise ValueError(e["op"])
+                raise ValueError(op)
+            if op in ("assign", "reorder", "sort", "group"):
+                ident = id(c.mat)            # these legitimately bind a new array
+            elif id(c.mat) != ident:
+                same_array = False
             steps.append(snap())             # the matrix is read back from the object: the model takes it as is
-        return {"steps": steps, "info": info, "same_array": bool(id(c.mat) == ident)}
+        return {"steps": steps, "info": info, "same_array": same_array}
+
+    # ---- several objects computed from ONE genotype matrix
+    def _gsnap(self, gm):
+        return {"geno": canon.enc(gm.mat), "taxa": None if gm.taxa is None else [str(t) for t in gm.taxa],
+                "taxa_grp": None if gm.taxa_grp is None else [int(t) for t in gm.taxa_grp], "meta": self._meta(gm)}
+
+    def _run_alias(self, M, case):
+        codes = self._codes(case.get("taxa"))
+        gm = self._gmat(M, case)
+        if case.get("grouped") and case.get("taxa_grp") is not None:
+            gm.group_taxa()
+        gsnaps = [self._gsnap(gm)]
+        objs, built = [], []
+        for o in case["objs"]:
+            sub = {**case, **o}
+            c = self._build(M, sub, gm)
+            objs.append(c)
+            built.append(self._obs_cmat(M, sub, c))
+        snaps = [[self._snap_obj(c, codes) for c in objs]]
+        results = []
+        for op in case["ops"]:
+            tgt = gm if op["on"] == "gmat" else objs[op["on"]]
+            name = op["op"]
+            res = None
+            if name == "reorder_taxa":
+                tgt.reorder_taxa(numpy.array(op["perm"], dtype="int64"))
+            elif name == "reorder":
+                tgt.reorder(numpy.array(op["perm"], dtype="int64"), axis=op.get("axis", -1))
+            elif name == "sort_taxa":
+                tgt.sort_taxa()
+            elif name == "sort":
+                tgt.sort(axis=op.get("axis", -1))
+            elif name == "group_taxa":
+                tgt.group_taxa()
+            elif name == "group":
+                tgt.group(axis=op.get("axis", -1))
+            elif name == "select_taxa":      # a new object; afterwards it is overwritten in place
+                o2 = tgt.select_taxa(numpy.array(op["perm"], dtype="int64"))
+                res = self._snap_obj(o2, codes)
+                o2.mat[...] = 777.0
+                if o2.taxa is not None:
+                    o2.taxa[:] = "overwritten"
+                if o2.taxa_grp is not None:
+                    o2.taxa_grp[:] = -77
+            elif name == "set":              # element write through `.mat` of one object
+                tgt.mat[op["i"], op["j"]] = _fl(op["v"])
+                tgt.mat[op["j"], op["i"]] = _fl(op["v"])
+            elif name == "gset":             # the genotype data edited in place (labels stay)
+                if gm.mat.ndim == 3:
+                    gm.mat[:, op["i"], :] = 1 - gm.mat[:, op["j"], :]
+                else:
+                    gm.mat[op["i"], :] = case["ploidy"] - gm.mat[op["j"], :]
+            else:
+                raise ValueError(name)
+            results.append(res)
+            snaps.append([self._snap_obj(c, codes) for c in objs])
+            gsnaps.append(self._gsnap(gm))
+        late = None
+        if case.get("late") is not None:
+            sub = {**case, **case["late"]}
+            late = self._obs_cmat(M, sub, self._build(M, sub, gm))
+        return {"built": built, "snaps": snaps, "gsnaps": gsnaps, "results": results, "late": late}
+
+    # ---- many taxa (judged against an independent evaluation in numpy; too large for the rational oracle)
+    @staticmethod
+    def _bign_geno(case):
+        rs = numpy.random.RandomState(case["seed"])
+        n, m, pl = case["n"], case["m"], case["ploidy"]
+        freq = numpy.array([_fl(f) for f in case["freq"]])
+        X = rs.binomial(pl, freq[None, :], size=(n, m)).astype("int8")
+        X[0, :] = 0                      # every marker polymorphic
+        X[1, :] = pl
+        if not case["phased"]:
+            return X, X
+        g = numpy.zeros((pl, n, m), dtype="int8")
+        first = rs.randint(0, pl, size=(n, m))
+        for ph in range(pl):
+            # the X alleles of a taxon occupy the phases first, first+1, ... (mod ploidy)
+            g[ph] = (((ph - first) % pl) < X).astype("int8")
+        return g, X
+
+    def _run_bign(self, M, case):
+        n, m, pl = case["n"], case["m"], case["ploidy"]
+        g, X = self._bign_geno(case)
+        taxa = numpy.array([f"N{(i * 7919) % n:05d}" for i in range(n)], dtype=object)
+        grp = numpy.array([(i * 31) % 5 for i in range(n)], dtype="int64")
+        gm = M["PG"](mat=g, taxa=taxa, taxa_grp=grp) if case["phased"] else \
+            M["UG"](mat=g, taxa=taxa, taxa_grp=grp, ploidy=pl)
+        c = self._build(M, case, gm)
+        G = numpy.array(c.mat, dtype="float64")
+        # independent evaluation: one marker at a time, exact integers where the formula allows it
+        Xi = X.astype("int64")
+        meth = case["method"]
+        p = None
+        if meth != "mol":
+            if case["p"] is None:
+                p = Xi.sum(axis=0).astype("float64") / float(pl * n)
+            elif isinstance(case["p"], list):
+                p = numpy.array([_fl(v) for v in case["p"]])
+            else:
+                p = numpy.full(m, _fl(case["p"]))
+        w = None
+        if meth == "gw":
+            w = numpy.ones(m) if case["w"] is None else (numpy.array([_fl(v) for v in case["w"]])
+                                                         if isinstance(case["w"], list) else numpy.full(m, _fl(case["w"])))
+        if meth == "mol":
+            S = numpy.zeros((n, n), dtype="int64")
+            for k in range(m):
+                x = Xi[:, k]
+                if pl == 2:
+                    S += numpy.multiply.outer(x - 1, x - 1)
+                else:
+                    S += numpy.multiply.outer(x, x) + numpy.multiply.outer(1 - x, 1 - x)
+            F = (1.0 + S / float(m)) if pl == 2 else (2.0 * S / float(m))
+        else:
+            F = numpy.zeros((n, n))
+            for k in range(m):
+                z = Xi[:, k] - pl * p[k]
+                if meth == "vr":
+                    F += numpy.multiply.outer(z, z)
+                elif meth == "yang":
+                    F += numpy.multiply.outer(z, z) / (pl * p[k] * (1.0 - p[k]))
+                else:
+                    F += w[k] * numpy.multiply.outer(z, z)
+            if meth == "vr":
+                F = F / (pl * float(numpy.sum(p * (1.0 - p))))
+            elif meth == "yang":
+                F = F / float(m)
+        scale = float(numpy.abs(F).max()) or 1.0
+        out = {"shape_ok": bool(G.shape == (n, n)), "finite": bool(numpy.isfinite(G).all())}
+        if not (out["shape_ok"] and out["finite"]):
+            return out
+        out["formula_dev"] = float(numpy.abs(G - F).max() / scale)
+        out["sym_dev"] = float(numpy.abs(G - G.T).max() / scale)
+        out["co_exact"] = bool(numpy.array_equal(c.mat_asformat("coancestry"), G))
+        out["kin_exact"] = bool(numpy.array_equal(c.mat_asformat("kinship"), G / 2.0))
+        out["taxa_ok"] = bool(c.taxa is not None and list(c.taxa) == list(taxa))
+        out["grp_ok"] = bool(c.taxa_grp is not None and list(c.taxa_grp) == list(grp))
+        ii = [0, 1, n // 2, n - 1]
+        out["acc_ok"] = bool(all(c.coancestry(i, j) == G[i, j] and c.kinship(i, j) == G[i, j] / 2.0
+                                 for i in ii for j in ii))
+        summ_ok = True
+        for fmt, A in (("coancestry", G), ("kinship", G / 2.0)):
+            summ_ok &= bool(c.max(format=fmt) == A.max() and c.min(format=fmt) == A.min())
+            summ_ok &= bool(numpy.array_equal(c.max(format=fmt, axis=0), A.max(axis=0)))
+            summ_ok &= bool(numpy.array_equal(c.min(format=fmt, axis=1), A.min(axis=1)))
+            summ_ok &= bool(c.max_inbreeding(format=fmt) == numpy.diag(A).max())
+            tot = float(sum(float(v) for v in A.sum(axis=1)))      # row sums, then a plain Python sum
+            summ_ok &= bool(abs(float(c.mean(format=fmt)) - tot / (n * n)) <= 1e-10 * scale)
+            summ_ok &= bool(numpy.abs(c.mean(format=fmt, axis=0) - A.sum(axis=0) / n).max() <= 1e-10 * scale)
+        out["summ_ok"] = summ_ok
+        if case.get("sel") is not None and (meth == "mol" or case["p"] is not None):
+            idx = [int(i) for i in case["sel"]]
+            a = self._build(M, case, gm.select_taxa(idx))
+            b = c.select_taxa(idx)
+            want = F[numpy.ix_(idx, idx)]
+            out["sel_dev"] = float(max(numpy.abs(a.mat - want).max(), numpy.abs(b.mat - want).max()) / scale)
+            out["sel_labels"] = bool(list(a.taxa) == [taxa[i] for i in idx] and list(b.taxa) == list(a.taxa)
+                                     and list(a.taxa_grp) == [grp[i] for i in idx]
+                                     and list(b.taxa_grp) == list(a.taxa_grp))
+        return out
 
     # ------------------------------------------------------------------ model requests
     @staticmethod
     def _base_req(case, obs=None):
         b = {k: case[k] for k in ("method", "ploidy", "phased", "n", "m", "geno", "p", "w")}
+        b["via"] = case.get("via", "class")
         if obs is not None and isinstance(obs, dict) and obs.get("eff") is not None:
             b["geno"] = obs["eff"]["geno"]      # a grouped source was sorted by group_taxa(): use what it holds
         return b
 
+    @staticmethod
+    def _spec_cmat_req(base, src, o):
+        """the Spec request for one freshly built matrix: `src` = labels / metadata of its source"""
+        oo = {kk: o[kk] for kk in ("mat", "co", "kin", "taxa", "taxa_grp", "acc")}
+        oo["meta"] = None if o["meta"] == "partial" else o["meta"]
+        return {"op": "c13.spec_cmat", **base, "taxa": src["taxa"], "taxa_grp": src["taxa_grp"],
+                "meta": None if src.get("meta") == "partial" else src.get("meta"), "out": oo}
+
+    @staticmethod
+    def _reorder_req(pre, post, name, indices=None):
+        strip = lambda o: {k: o[k] for k in ("mat", "taxa", "taxa_grp", "meta")}
+        d = {"name": name}
+        if indices is not None:
+            d["indices"] = [int(i) for i in indices]
+        return {"op": "c13.spec_reorder", "pre": strip(pre), "post": strip(post), "do": d}
+
+    _OBJ_OPS = {"reorder": "reorder_taxa", "reorder_taxa": "reorder_taxa", "sort": "sort_taxa",
+                "sort_taxa": "sort_taxa", "group": "group_taxa", "group_taxa": "group_taxa",
+                "select_taxa": "select_taxa"}
+
     def requests(self, case, obs):
         k = case["kind"]
+        if k == "bign":
+            return []
         if k == "summ":
             reqs = [{"op": "c13.summ", "mat": case["mat"]}]
             if _finite(obs):
@@ -775,22 +1475,42 @@ class C13(Prop):
                     if e["op"] == "jitter" and inf["draws"] is not None:
                         reqs.append({"op": "c13.jitter", "mat": obs["steps"][t]["mat"], "draws": inf["draws"],
                                      "answers": inf["answers"]})
+                    elif e["op"] in ("reorder", "sort", "group"):
+                        reqs.append(self._reorder_req(obs["steps"][t]["obj"], obs["steps"][t + 1]["obj"],
+                                                      self._OBJ_OPS[e["op"]], e.get("perm")))
+            return reqs
+        if k == "alias":
+            reqs = []
+            g0 = obs["gsnaps"][0]
+            for o, b in zip(case["objs"], obs["built"]):
+                base = self._base_req({**case, **o})
+                base["geno"] = g0["geno"]
+                if _finite(b):
+                    reqs.append(self._spec_cmat_req(base, g0, b))
+            for t, op in enumerate(case["ops"]):
+                if op["on"] != "gmat" and op["op"] in self._OBJ_OPS:
+                    pre = obs["snaps"][t][op["on"]]
+                    post = obs["results"][t] if op["op"] == "select_taxa" else obs["snaps"][t + 1][op["on"]]
+                    if _finite(pre) and _finite(post):
+                        reqs.append(self._reorder_req(pre, post, self._OBJ_OPS[op["op"]], op.get("perm")))
+            if obs["late"] is not None and _finite(obs["late"]):
+                base = self._base_req({**case, **case["late"]})
+                want = self._gmat_expected(case, obs)
+                base["geno"] = obs["gsnaps"][-1]["geno"]
+                reqs.append(self._spec_cmat_req(base, want, obs["late"]))
             return reqs
         base = self._base_req(case, obs)
         if k == "reject":
             return [{"op": "c13.cmat", **base, "sel": None}]
         reqs = [{"op": "c13.cmat", **base, "sel": case.get("sel")}]
         if _finite(obs):
-            o = {kk: obs[kk] for kk in ("mat", "co", "kin", "taxa", "taxa_grp", "acc")}
             src = obs["eff"] if obs.get("eff") is not None else {"taxa": case["taxa"], "taxa_grp": case["taxa_grp"],
                                                                  "meta": None}
-            o["meta"] = None if obs["meta"] == "partial" else obs["meta"]
-            spec = {"op": "c13.spec_cmat", **base, "taxa": src["taxa"], "taxa_grp": src["taxa_grp"],
-                    "meta": src["meta"], "out": o}
+            spec = self._spec_cmat_req(base, src, obs)
             if case.get("sel") is not None:
                 spec["sel"] = case["sel"]
-                o["sel_a"] = obs["sel_a"]
-                o["sel_b"] = obs["sel_b"]
+                spec["out"]["sel_a"] = obs["sel_a"]
+                spec["out"]["sel_b"] = obs["sel_b"]
             reqs.append(spec)
             reqs.append({"op": "c13.spec_summ", "mat": obs["mat"], "co": obs["summ"]["co"],
                          "kin": obs["summ"]["kin"], "symmetric": True})
@@ -798,13 +1518,25 @@ class C13(Prop):
                 reqs.append({"op": "c13.yang_float", **base})
         return reqs
 
+    @staticmethod
+    def _gmat_expected(case, obs):
+        """labels / metadata the genotype matrix must hold after the operations addressed to it
+        (`reorder_taxa` with explicit indices only): computed from its first snapshot"""
+        g = dict(obs["gsnaps"][0])
+        for op in case["ops"]:
+            if op["on"] == "gmat" and op["op"] == "reorder_taxa":
+                perm = op["perm"]
+                g = {"taxa": None if g["taxa"] is None else [g["taxa"][i] for i in perm],
+                     "taxa_grp": None if g["taxa_grp"] is None else [g["taxa_grp"][i] for i in perm], "meta": None}
+        return {"taxa": g["taxa"], "taxa_grp": g["taxa_grp"], "meta": g["meta"]}
+
     # ------------------------------------------------------------------ comparison
     @staticmethod
     def _cmp_summ(model, impl):
         """model summaries (exact, on the model's matrix) against the implementation's; returns list of
         the names that disagree"""
         bad = []
-        sc = _scale(model["co"]["mat"])
+        sc = _scale0(model["co"]["mat"])
         for key in ("co", "kin"):
             ms, im = model[key], impl[key]
             if not _close(ms["mat"], im["mat"], sc):
@@ -830,66 +1562,194 @@ class C13(Prop):
                             bad.append(key + ".min_inb")
         return bad
 
+    BIGN_TOL = 1e-9
+
+    def _judge_bign(self, case, obs):
+        bad = []
+        if not (obs.get("shape_ok") and obs.get("finite")):
+            bad.append("shape/finite")
+        else:
+            if obs["formula_dev"] > self.BIGN_TOL:
+                bad.append(f"formula(dev={obs['formula_dev']:.3g})")
+            if obs["sym_dev"] > 1e-12:
+                bad.append("symmetric")
+            for key, name in (("co_exact", "coancestry_view_is_mat"), ("kin_exact", "kinship_exactly_half"),
+                              ("taxa_ok", "taxa_carried"), ("grp_ok", "taxa_grp_carried"),
+                              ("acc_ok", "accessors"), ("summ_ok", "summaries")):
+                if not obs[key]:
+                    bad.append(name)
+            if "sel_dev" in obs:
+                if obs["sel_dev"] > self.BIGN_TOL:
+                    bad.append("select_commutes")
+                if not obs["sel_labels"]:
+                    bad.append("select_labels")
+        return {"corr": not bad, "spec": not bad, "nontrivial": True,
+                "detail": f"bign[{case['method']}/{case['via']} n={case['n']} m={case['m']}] spec_failed={bad}"}
+
+    def _judge_alias(self, case, obs, answers):
+        failed, bad = [], []
+        pos = 0
+        nobj = len(case["objs"])
+        for i, b in enumerate(obs["built"]):
+            if not _finite(b):
+                failed.append(f"obj{i}.nonfinite")
+                continue
+            a = answers[pos]["ok"]
+            pos += 1
+            failed += [f"obj{i}.{f}" for f in a["failed"]]
+            if not b["class_ok"] or b["meta"] == "partial":
+                failed.append(f"obj{i}.class/meta")
+        gexp = dict(obs["gsnaps"][0])
+        for t, op in enumerate(case["ops"]):
+            before, after = obs["snaps"][t], obs["snaps"][t + 1]
+            tgt = op["on"]
+            if tgt != "gmat" and op["op"] in self._OBJ_OPS:
+                pre = before[tgt]
+                post = obs["results"][t] if op["op"] == "select_taxa" else after[tgt]
+                if _finite(pre) and _finite(post):
+                    a = answers[pos]["ok"]
+                    pos += 1
+                    failed += [f"op{t}.obj{tgt}.{f}" for f in a["failed"]]
+                else:
+                    failed.append(f"op{t}.nonfinite")
+                if post.get("meta_partial"):
+                    failed.append(f"op{t}.obj{tgt}.partial_metadata")
+            # every object the operation was not addressed to is untouched (`select_taxa` / `set`: see below)
+            for i in range(nobj):
+                if i == tgt and op["op"] not in ("select_taxa", "set"):
+                    continue
+                if i == tgt and op["op"] == "set":
+                    want = canon.dec(before[i]["mat"])
+                    want = [list(r) for r in want]
+                    want[op["i"]][op["j"]] = Fraction(op["v"])
+                    want[op["j"]][op["i"]] = Fraction(op["v"])
+                    if canon.dec(after[i]["mat"]) != want:
+                        bad.append(f"op{t}.obj{i}.element_write")
+                    if any(after[i][kk] != before[i][kk] for kk in ("taxa", "taxa_grp", "meta", "names")):
+                        failed.append(f"op{t}.obj{i}.labels_changed_by_element_write")
+                    continue
+                if after[i] != before[i]:
+                    what = [kk for kk in ("mat", "taxa", "taxa_grp", "meta", "names") if after[i][kk] != before[i][kk]]
+                    failed.append(f"op{t}({op['op']} on {tgt}).obj{i}.changed:{'+'.join(what)}")
+            # the genotype matrix: only its own `reorder_taxa` may change it
+            g0, g1 = obs["gsnaps"][t], obs["gsnaps"][t + 1]
+            if tgt == "gmat" and op["op"] == "gset":
+                if (g1["taxa"], g1["taxa_grp"], g1["meta"]) != (g0["taxa"], g0["taxa_grp"], g0["meta"]):
+                    bad.append(f"op{t}.gmat.labels_after_data_write")
+            elif tgt == "gmat":
+                perm = op["perm"]
+                gexp = {"taxa": None if gexp["taxa"] is None else [gexp["taxa"][i] for i in perm],
+                        "taxa_grp": None if gexp["taxa_grp"] is None else [gexp["taxa_grp"][i] for i in perm],
+                        "meta": None, "geno": None}
+                if (g1["taxa"], g1["taxa_grp"], g1["meta"]) != (gexp["taxa"], gexp["taxa_grp"], gexp["meta"]):
+                    bad.append(f"op{t}.gmat.reorder")          # the genotype matrix's own reordering: C03's subject
+            elif g1 != g0:
+                what = [kk for kk in ("geno", "taxa", "taxa_grp", "meta") if g1[kk] != g0[kk]]
+                failed.append(f"op{t}({op['op']} on obj{tgt}).gmat.changed:{'+'.join(what)}")
+        if obs["late"] is not None:
+            if not _finite(obs["late"]):
+                failed.append("late.nonfinite")
+            else:
+                a = answers[pos]["ok"]
+                pos += 1
+                failed += [f"late.{f}" for f in a["failed"]]
+                if not obs["late"]["class_ok"]:
+                    failed.append("late.class")
+        return {"corr": not (bad or failed), "spec": not failed, "nontrivial": case["n"] >= 2 and len(case["ops"]) >= 1,
+                "detail": f"alias[{'+'.join(o['method'] for o in case['objs'])}] ops="
+                          f"{[(o['op'], o['on']) for o in case['ops']]} corr_mismatch={bad} spec_failed={failed}"}
+
+    def _judge_edit(self, case, obs, answers):
+        steps = obs["steps"]
+        if not all(_finite(st) for st in steps):
+            return {"corr": False, "spec": False, "nontrivial": True,
+                    "detail": "non-finite matrix / summary after an in-place edit"}
+        bad, failed = [], []
+        for t, st in enumerate(steps):
+            model, spec = answers[2 * t]["ok"], answers[2 * t + 1]["ok"]
+            bad += [f"step{t}.{b}" for b in self._cmp_summ(model, st)]
+            failed += [f"step{t}.{f}" for f in spec["failed"]]
+        # the edits themselves: the matrix / labels read back are the edited ones
+        changed = False
+        extra, nxt = {}, 2 * len(steps)          # position of the additional answer of edit t
+        for t, e in enumerate(case["edits"]):
+            if (e["op"] == "jitter" and obs["info"][t]["draws"] is not None) or e["op"] in ("reorder", "sort", "group"):
+                extra[t] = nxt
+                nxt += 1
+        for t, e in enumerate(case["edits"]):
+            before, after = canon.dec(steps[t]["mat"]), canon.dec(steps[t + 1]["mat"])
+            ob, oa = steps[t]["obj"], steps[t + 1]["obj"]
+            labels_same = all(ob[kk] == oa[kk] for kk in ("taxa", "taxa_grp", "names"))
+            meta_same = ob["meta"] == oa["meta"] and not oa.get("meta_partial")
+            want = [list(r) for r in before]
+            op = e["op"]
+            if op in ("reorder", "sort", "group"):
+                a = answers[extra[t]]["ok"]
+                failed += [f"edit{t}.{op}.{f}" for f in a["failed"]]
+                if oa.get("meta_partial"):
+                    failed.append(f"edit{t}.{op}.partial_metadata")
+                changed = changed or after != before or not labels_same
+                continue
+            if op == "set":
+                want[e["i"]][e["j"]] = Fraction(e["v"])
+                if e.get("mirror"):
+                    want[e["j"]][e["i"]] = Fraction(e["v"])
+            elif op == "add_diag":
+                for i in range(len(want)):
+                    want[i][i] = Fraction(float(want[i][i]) + _fl(e["v"]))
+            elif op == "assign":
+                want = [[Fraction(v) for v in r] for r in e["mat"]]
+            elif op == "mutate_view":
+                if after != before:
+                    # an array handed out by a read-only method shares memory with the object
+                    failed.append(f"edit{t}.object_changed_through_returned_array({e['what']})")
+            else:                                   # jitter: the model with the recorded oracle inputs
+                inf = obs["info"][t]
+                if inf["draws"] is not None:
+                    mj = answers[extra[t]]["ok"]
+                    if mj["ok"] != inf["ok"] or not _close(mj["mat"], steps[t + 1]["mat"],
+                                                              _scale(mj["mat"]), rel=1e-12):
+                        bad.append(f"edit{t}.jitter_model")
+                lo, hi = Fraction(e["lo"]), Fraction(e["hi"])
+                for i in range(len(want)):
+                    d = after[i][i] - before[i][i]
+                    if d != 0 and lo * Fraction(999, 1000) <= d <= hi * Fraction(1001, 1000):
+                        want[i][i] = after[i][i]
+            if want != after and op != "mutate_view":
+                bad.append(f"edit{t}.matrix")
+            if not labels_same:
+                failed.append(f"edit{t}.labels_changed_by_{op}")
+            if not meta_same and op != "assign":
+                bad.append(f"edit{t}.metadata")
+            changed = changed or after != before
+        if not obs["same_array"]:
+            bad.append("matrix object replaced")
+        return {"corr": not (bad or failed), "spec": not failed,
+                "nontrivial": changed and len(steps[0]["mat"]) >= 2,
+                "detail": f"edit[{case['src']}] ops={[e['op'] for e in case['edits']]} corr_mismatch={bad} "
+                          f"spec_failed={failed} jitter="
+                          f"{[None if i is None else (i['ok'], i['answers']) for i in obs['info']]}"}
+
     def judge(self, case, obs, answers):
         for a in answers:
             if "err" in a:
                 raise RuntimeError("driver error: " + a["err"])
         k = case["kind"]
+        if k == "bign":
+            return self._judge_bign(case, obs)
+        if k == "alias":
+            return self._judge_alias(case, obs, answers)
         if k == "summ":
             model = answers[0]["ok"]
             if not _finite(obs):
                 return {"corr": False, "spec": False, "nontrivial": True, "detail": "non-finite summary of a finite matrix"}
             spec = answers[1]["ok"]
             bad = self._cmp_summ(model, obs)
-            return {"corr": not bad, "spec": bool(spec["ok"]), "nontrivial": len(case["mat"]) >= 2,
-                    "detail": f"summ corr_mismatch={bad} spec_failed={spec['failed']}"}
+            xbad = _extras_bad(obs)
+            return {"corr": not (bad or xbad), "spec": bool(spec["ok"]) and not xbad, "nontrivial": len(case["mat"]) >= 2,
+                    "detail": f"summ corr_mismatch={bad} spec_failed={spec['failed'] + xbad}"}
         if k == "edit":
-            steps = obs["steps"]
-            if not all(_finite(st) for st in steps):
-                return {"corr": False, "spec": False, "nontrivial": True,
-                        "detail": "non-finite matrix / summary after an in-place edit"}
-            bad, failed = [], []
-            for t, st in enumerate(steps):
-                model, spec = answers[2 * t]["ok"], answers[2 * t + 1]["ok"]
-                bad += [f"step{t}.{b}" for b in self._cmp_summ(model, st)]
-                failed += [f"step{t}.{f}" for f in spec["failed"]]
-            # the element edits themselves (numpy semantics): the matrix read back is the edited one
-            changed = False
-            jpos, nxt = {}, 2 * len(steps)          # position of the c13.jitter answer of edit t
-            for t, e in enumerate(case["edits"]):
-                if e["op"] == "jitter" and obs["info"][t]["draws"] is not None:
-                    jpos[t] = nxt
-                    nxt += 1
-            for t, e in enumerate(case["edits"]):
-                before, after = canon.dec(steps[t]["mat"]), canon.dec(steps[t + 1]["mat"])
-                want = [list(r) for r in before]
-                if e["op"] == "set":
-                    want[e["i"]][e["j"]] = Fraction(e["v"])
-                    if e.get("mirror"):
-                        want[e["j"]][e["i"]] = Fraction(e["v"])
-                elif e["op"] == "add_diag":
-                    for i in range(len(want)):
-                        want[i][i] = Fraction(float(want[i][i]) + _fl(e["v"]))
-                else:                                   # jitter: the model with the recorded oracle inputs
-                    inf = obs["info"][t]
-                    if inf["draws"] is not None:
-                        mj = answers[jpos[t]]["ok"]
-                        if mj["ok"] != inf["ok"] or not _close(mj["mat"], steps[t + 1]["mat"],
-                                                                  _scale(mj["mat"]), rel=1e-12):
-                            bad.append(f"edit{t}.jitter_model")
-                    lo, hi = Fraction(e["lo"]), Fraction(e["hi"])
-                    for i in range(len(want)):
-                        d = after[i][i] - before[i][i]
-                        if d != 0 and lo * Fraction(999, 1000) <= d <= hi * Fraction(1001, 1000):
-                            want[i][i] = after[i][i]
-                if want != after:
-                    bad.append(f"edit{t}.matrix")
-                changed = changed or after != before
-            if not obs["same_array"]:
-                bad.append("matrix object replaced")
-            return {"corr": not bad, "spec": not failed, "nontrivial": changed and len(steps[0]["mat"]) >= 2,
-                    "detail": f"edit[{case['src']}] corr_mismatch={bad} spec_failed={failed} jitter="
-                              f"{[None if i is None else (i['ok'], i['answers']) for i in obs['info']]}"}
+            return self._judge_edit(case, obs, answers)
         if k == "reject":
             model = answers[0]["ok"]
             mtag = _MODEL_TAG.get(model.get("err"), model.get("err"))
@@ -906,7 +1766,7 @@ class C13(Prop):
         if "err" in model:
             bad.append("model rejects: " + str(model["err"]))
         else:
-            sc = _scale(model["mat"])
+            sc = _scale0(model["mat"])
             if not _close(model["mat"], obs["mat"], sc):
                 bad.append("mat")
             bad += self._cmp_summ(model, obs["summ"])
@@ -918,15 +1778,23 @@ class C13(Prop):
                 yf = answers[3]["ok"]
                 if "err" in yf or not _finite(yf["mat"]) or not _close(yf["mat"], obs["mat"], sc):
                     bad.append("yang_as_written_on_Float")
-        spec = bool(spec1["ok"]) and bool(spec2["ok"]) and obs["class_ok"] and obs["meta"] != "partial"
+        xbad = _extras_bad(obs["summ"])
+        if not obs.get("source_intact", True):
+            xbad.append("source_genotype_matrix_modified")
+        if not obs.get("object_intact", True):
+            xbad.append("object_modified_by_reading_it")
+        if not obs.get("args_intact", True):
+            xbad.append("argument_array_modified")
+        spec = (bool(spec1["ok"]) and bool(spec2["ok"]) and obs["class_ok"] and obs["meta"] != "partial"
+                and not xbad)
         X = case["geno"] if not case["phased"] else \
             [[sum(case["geno"][ph][i][kk] for ph in range(case["ploidy"])) for kk in range(case["m"])]
              for i in range(case["n"])]
         nontriv = (case["n"] >= 2 and case["m"] >= 2 and len({tuple(r) for r in X}) >= 2
                    and any(self._polymorphic(X, case["ploidy"], kk) for kk in range(case["m"])))
-        return {"corr": not bad, "spec": spec, "nontrivial": nontriv,
+        return {"corr": not (bad or xbad), "spec": spec, "nontrivial": nontriv,
                 "detail": f"cmat[{case['method']}/{case['via']}] corr_mismatch={bad} "
-                          f"spec_failed={spec1['failed'] + spec2['failed']} class_ok={obs['class_ok']}"}
+                          f"spec_failed={spec1['failed'] + spec2['failed'] + xbad} class_ok={obs['class_ok']}"}
 
     def signature(self, case, obs, verdict):
         sig = {"kind": case["kind"], "method": case.get("method", case.get("cls"))}
@@ -946,8 +1814,29 @@ class C13(Prop):
                     c["edits"] = case["edits"][:t] + case["edits"][t + 1:]
                     yield c
             return
+        if k == "bign":
+            return
+        if k == "alias":
+            for t in range(len(case["ops"])):
+                c = dict(case)
+                c["ops"] = case["ops"][:t] + case["ops"][t + 1:]
+                yield c
+            if case.get("late") is not None:
+                c = dict(case)
+                c["late"] = None
+                yield c
+            return
         if k == "summ":
             n = len(case["mat"])
+            if n > 12:                                  # large matrices: halve first
+                for keep in (range(n // 2), range(n // 2, n), range(1, n), range(n - 1)):
+                    keep = list(keep)
+                    c = dict(case)
+                    c["mat"] = [[case["mat"][i][j] for j in keep] for i in keep]
+                    if c["taxa"] is not None:
+                        c["taxa"] = [case["taxa"][i] for i in keep]
+                    yield c
+                return
             for i in range(n):
                 if n > 1:
                     c = dict(case)
@@ -1267,8 +2156,222 @@ class C13(Prop):
                 return True
             return f
 
+        # --- round 3: one mutant per new case kind
+        from pybrops.core.mat.DenseSquareTaxaMatrix import DenseSquareTaxaMatrix as SqTaxa
+        UG, PG = M["UG"], M["PG"]
+
+        def reorder_in_place(self, indices, **kw):
+            for axis in self.square_taxa_axes:
+                ix = tuple(indices if i == axis else slice(None) for i in range(self.mat_ndim))
+                self._mat = self._mat[ix]
+            if self._taxa is not None:
+                self._taxa[:] = self._taxa[indices]             # the label buffers are shared with the source
+            if self._taxa_grp is not None:
+                self._taxa_grp[:] = self._taxa_grp[indices]
+            self._taxa_grp_name = self._taxa_grp_stix = self._taxa_grp_spix = self._taxa_grp_len = None
+
+        def gw_blocked(cls, gmat, mkrwt=None, afreq=None, **kw):
+            m = gmat.nvrnt
+            w = numpy.full((m,), 1.0) if mkrwt is None else \
+                (mkrwt if isinstance(mkrwt, numpy.ndarray) else numpy.full((m,), float(mkrwt)))
+            p = gmat.afreq() if afreq is None else \
+                (afreq if isinstance(afreq, numpy.ndarray) else numpy.full((m,), float(afreq)))
+            Z = gmat.tacount() - float(gmat.ploidy) * p[None, :]
+            blk = max(min(m, 1024), 1)
+            G = numpy.zeros((gmat.ntaxa, gmat.ntaxa))
+            for st in range(0, m - blk + 1, blk):                # full blocks only
+                Zb = Z[:, st:st + blk]
+                G += (Zb * w[None, st:st + blk]).dot(Zb.T)
+            return finish(cls, G, gmat)
+
+        def mol_taxa_blocks(cls, gmat, **kw):
+            X = gmat.tacount(int)
+            r = 1.0 / gmat.nvrnt
+            n = X.shape[0]
+            G = numpy.ones((n, n)) if gmat.ploidy == 2 else numpy.zeros((n, n))
+            blk = 1024
+            for a in range(0, n - n % blk if n > blk else n, blk if n > blk else max(n, 1)):   # rows past the last full block are left at the fill value
+                b = min(a + blk, n)
+                if gmat.ploidy == 1:
+                    Y = 1 - X
+                    G[a:b, :] = (2.0 * r) * ((X[a:b] @ X.T) + (Y[a:b] @ Y.T))
+                else:
+                    X1 = X - 1
+                    G[a:b, :] = 1.0 + r * (X1[a:b] @ X1.T)
+            return finish(cls, G, gmat)
+
+        def afreq_int8(self, dtype=None):
+            ax = (self.phase_axis, self.taxa_axis) if hasattr(self, "phase_axis") and self._mat.ndim == 3 else self.taxa_axis
+            return self._mat.sum(ax, dtype="int8") / (self.ploidy * self.ntaxa)
+
+        @contextlib.contextmanager
+        def narrow_afreq():
+            with patch(UG, "afreq", afreq_int8), patch(PG, "afreq", afreq_int8):
+                yield
+
+        def yang_clipped(cls, gmat, p_anc=None, **kw):
+            p = numpy.clip(resolve_p(gmat, p_anc), 1e-6, 1.0 - 1e-6)         # "avoid division by zero"
+            Z = gmat.tacount() - p[None, :] * float(gmat.ploidy)
+            Z = Z * (1.0 / numpy.sqrt(float(gmat.ploidy) * p * (1.0 - p)))
+            G = (1.0 / gmat.nvrnt) * Z.dot(Z.T)
+            return finish(cls, G, gmat)
+
+        def vr_isclose(cls, gmat, p_anc=None, **kw):
+            p = resolve_p(gmat, p_anc).astype(float)
+            p = numpy.where(numpy.isclose(p, 0.0), 0.0, numpy.where(numpy.isclose(p, 1.0), 1.0, p))
+            Z = gmat.tacount() - p[None, :] * float(gmat.ploidy)
+            G = (1.0 / (float(gmat.ploidy) * p.dot(1.0 - p))) * Z.dot(Z.T)
+            return finish(cls, G, gmat)
+
+        def gw_tiny_weights_dropped(cls, gmat, mkrwt=None, afreq=None, **kw):
+            m = gmat.nvrnt
+            w = numpy.full((m,), 1.0) if mkrwt is None else \
+                (mkrwt.astype(float) if isinstance(mkrwt, numpy.ndarray) else numpy.full((m,), float(mkrwt)))
+            w = numpy.where(w < 1e-8, 0.0, w)
+            p = gmat.afreq() if afreq is None else \
+                (afreq if isinstance(afreq, numpy.ndarray) else numpy.full((m,), float(afreq)))
+            Z = gmat.tacount() - float(gmat.ploidy) * p[None, :]
+            return finish(cls, (Z * w[None, :]).dot(Z.T), gmat)
+
+        def kinship_scalar_only(self, *args, **kw):
+            if all(isinstance(a, (int, numpy.integer)) and a >= 0 for a in args) and len(args) == 2:
+                return 0.5 * self._mat[args]
+            return self._mat[args]
+
+        def max_negative_axis(self, format="coancestry", axis=None):
+            if isinstance(axis, int) and axis < 0:
+                axis = 0
+            out = self._mat.max(axis=axis)
+            if format.lower() == "kinship":
+                out = out * 0.5
+            return out
+
+        def min_tuple_axis(self, format="coancestry", axis=None):
+            if isinstance(axis, tuple):
+                axis = axis[0]
+            out = self._mat.min(axis=axis)
+            if format.lower() == "kinship":
+                out = out * 0.5
+            return out
+
+        def mol_memory_order(cls, gmat, **kw):
+            T = gmat.tacount(int)
+            X = T.ravel(order="K").reshape(T.shape)          # walks the buffer, whatever its layout
+            r = 1.0 / gmat.nvrnt
+            if gmat.ploidy == 1:
+                Y = 1 - X
+                G = (2.0 * r) * ((X @ X.T) + (Y @ Y.T))
+            else:
+                X = X - 1
+                G = 1.0 + r * (X @ X.T)
+            return finish(cls, G, gmat)
+
+        def mean_flat_buffer(self, format="coancestry", axis=None, dtype=None):
+            n = self._mat.shape[0]
+            A = self._mat.ravel(order="K").reshape(n, n)      # Fortran-ordered input comes out transposed
+            out = A.mean(axis=axis, dtype=dtype)
+            return out * 0.5 if format.lower() == "kinship" else out
+
+        def mean_checksum_memo(self, format="coancestry", axis=None, dtype=None):
+            cache = self.__dict__.setdefault("_mean_cache2", {})
+            key = (float(self._mat.sum()), float(numpy.abs(self._mat).sum()), axis)   # invariant under re-ordering
+            if key not in cache:
+                cache[key] = self._mat.mean(axis=axis, dtype=dtype)
+            out = cache[key]
+            return out * 0.5 if format.lower() == "kinship" else out
+
+        def max_memo_per_object(self, format="coancestry", axis=None):
+            cache = self.__dict__.setdefault("_max_cache", {})
+            if axis not in cache:
+                cache[axis] = self._mat.max(axis=axis)
+            out = cache[axis]
+            return out * 0.5 if format.lower() == "kinship" else out
+
+        def asformat_no_copy(self, format):
+            return self._mat if format.lower() == "coancestry" else 0.5 * self._mat
+
+        def psd_ignores_tol(self, eigvaltol=2e-14):
+            return bool(numpy.all(numpy.linalg.eigvals(self._mat) >= 2e-14))
+
+        def psd_relative(self, eigvaltol=2e-14):
+            ev = numpy.linalg.eigvals(self._mat)
+            return bool(numpy.all(ev.real >= max(eigvaltol, 0.0) - 1e-5 * numpy.abs(ev).max()))
+
+        def vr_groups_source(cls, gmat, p_anc=None, **kw):
+            if gmat.taxa is not None or gmat.taxa_grp is not None:
+                gmat.group_taxa()                                # re-orders the caller's genotype matrix
+            p = resolve_p(gmat, p_anc)
+            Z = gmat.tacount() - p[None, :] * float(gmat.ploidy)
+            G = (1.0 / (float(gmat.ploidy) * p.dot(1.0 - p))) * Z.dot(Z.T)
+            out = finish(cls, G, gmat)
+            out.taxa_grp_name, out.taxa_grp_stix = gmat.taxa_grp_name, gmat.taxa_grp_stix
+            out.taxa_grp_spix, out.taxa_grp_len = gmat.taxa_grp_spix, gmat.taxa_grp_len
+            return out
+
+        def select_shares_labels(self, indices, **kw):
+            mat = self._mat
+            for axis in self.square_taxa_axes:
+                mat = numpy.take(mat, indices, axis=axis)
+            full = len(indices) == self.ntaxa
+            taxa = self._taxa if self._taxa is None else numpy.take(self._taxa, indices, axis=0)
+            grp = self._taxa_grp if self._taxa_grp is None else numpy.take(self._taxa_grp, indices, axis=0)
+            out = self.__class__(mat=mat, taxa=taxa, taxa_grp=grp, **kw)
+            if full and list(indices) == sorted(indices):
+                out._mat = self._mat                             # "nothing to copy" for the identity selection
+            return out
+
+        yang_orig = Yang.__dict__["from_gmat"].__func__
+        afreq_memo = {}
+
+        def yang_afreq_memo(cls, gmat, p_anc=None, **kw):
+            if p_anc is None:                                    # sample frequencies remembered per source object
+                key = (id(gmat), gmat.nvrnt)
+                if key not in afreq_memo:
+                    afreq_memo[key] = gmat.afreq()
+                p_anc = afreq_memo[key]
+            return yang_orig(cls, gmat, p_anc=p_anc, **kw)
+
+        def vr_scales_argument(cls, gmat, p_anc=None, **kw):
+            p = resolve_p(gmat, p_anc)
+            if isinstance(p_anc, numpy.ndarray) and p_anc.dtype == numpy.float64:
+                p_anc *= float(gmat.ploidy)                      # the caller's array
+                Mx = p_anc[None, :]
+            else:
+                Mx = p[None, :] * float(gmat.ploidy)
+            p = Mx[0] / float(gmat.ploidy)
+            Z = gmat.tacount() - Mx
+            G = (1.0 / (float(gmat.ploidy) * p.dot(1.0 - p))) * Z.dot(Z.T)
+            return finish(cls, G, gmat)
+
+        def kinship_in_place(self, *args, **kw):
+            out = self._mat[args]
+            out *= 0.5                                           # a slice of the matrix is a view of it
+            return out
+
         cm = classmethod
         return [
+            ("r3_yang_sample_frequencies_memoised_per_source_id", lambda: patch(Yang, "from_gmat", cm(yang_afreq_memo))),
+            ("r3_vr_scales_the_callers_frequency_array", lambda: patch(VR, "from_gmat", cm(vr_scales_argument))),
+            ("r3_kinship_accessor_halves_a_view_in_place", lambda: patch(Base, "kinship", kinship_in_place)),
+            ("r3_reorder_permutes_shared_label_buffers", lambda: patch(SqTaxa, "reorder_taxa", reorder_in_place)),
+            ("r3_gw_blocked_sum_drops_remainder", lambda: patch(GW, "from_gmat", cm(gw_blocked))),
+            ("r3_mol_taxa_blocks_drop_remainder", lambda: patch(Mol, "from_gmat", cm(mol_taxa_blocks))),
+            ("r3_afreq_int8_accumulator", narrow_afreq),
+            ("r3_yang_frequencies_clipped", lambda: patch(Yang, "from_gmat", cm(yang_clipped))),
+            ("r3_vr_frequencies_isclose_snapped", lambda: patch(VR, "from_gmat", cm(vr_isclose))),
+            ("r3_gw_tiny_weights_dropped", lambda: patch(GW, "from_gmat", cm(gw_tiny_weights_dropped))),
+            ("r3_kinship_accessor_halves_scalars_only", lambda: patch(Base, "kinship", kinship_scalar_only)),
+            ("r3_max_negative_axis_is_axis0", lambda: patch(Base, "max", max_negative_axis)),
+            ("r3_min_tuple_axis_first_only", lambda: patch(Base, "min", min_tuple_axis)),
+            ("r3_mol_reads_buffer_in_memory_order", lambda: patch(Mol, "from_gmat", cm(mol_memory_order))),
+            ("r3_mean_reads_buffer_in_memory_order", lambda: patch(Base, "mean", mean_flat_buffer)),
+            ("r3_mean_memo_keyed_on_checksum", lambda: patch(Base, "mean", mean_checksum_memo)),
+            ("r3_max_memo_per_object", lambda: patch(Base, "max", max_memo_per_object)),
+            ("r3_mat_asformat_hands_out_internal_array", lambda: patch(Base, "mat_asformat", asformat_no_copy)),
+            ("r3_is_psd_ignores_tolerance", lambda: patch(Base, "is_positive_semidefinite", psd_ignores_tol)),
+            ("r3_is_psd_relative_tolerance", lambda: patch(Base, "is_positive_semidefinite", psd_relative)),
+            ("r3_vr_groups_the_source_in_place", lambda: patch(VR, "from_gmat", cm(vr_groups_source))),
+            ("r3_select_identity_shares_matrix", lambda: patch(SqTaxa, "select_taxa", select_shares_labels)),
             ("vr_group_metadata_dropped", lambda: patch(VR, "from_gmat", with_meta(VR, drop_meta))),
             ("mol_group_spix_is_stix", lambda: patch(Mol, "from_gmat", with_meta(Mol, spix_is_stix))),
             ("jitter_not_restored_on_failure", lambda: patch(Base, "apply_jitter", jitter_mut("no_restore"))),
